@@ -106,7 +106,7 @@ package alloctxn
 //@   loop 1 invariant [only] forall n uint64 :: (forall k uint64 :: k < uint64(rangeindex+1) ==> atxn.freeBnums[k] != n) ==> abits[theBalloc][n] == old(abits)[theBalloc][n]
 
 //@ spec (*AllocTxn).PostAbort
-//@   props C05 C09 C11
+//@   props C05 C09 C10 C11
 //@   requires atxnInv(atxn) && listsValid(atxn)
 //@   preserves [allocInv] allocInv() @C15 @C04
 //@   modifies abits
